@@ -76,7 +76,9 @@ ADAPTORS_TRANSPARENT = ('into_iter', 'iter', 'iter_mut')
 
 
 def iter_chain(src):
-    """Peel iterator adaptors: returns (base term, [adaptor names outermost last])."""
+    """Peel iterator adaptors: returns (base term, [adaptor names outermost last]).  Unsize casts and the Vec -> slice view
+    (`v.iter()` on a Vec goes through Deref: the same elements in order) are looked through; a base reached through such a
+    view keeps its borrow markers (callers identify the local through them)."""
     ad = []
     t = strip(src)
     while isinstance(t, tuple) and t[0] == 'call':
@@ -85,13 +87,24 @@ def iter_chain(src):
                     'filter', 'map', 'cloned', 'copied', 'windows', 'par_iter', 'into_par_iter', 'skip_while', 'take_while'):
             ad.append(name)
             t = strip(t[2])
-            # unsize casts
-            while isinstance(t, tuple) and t[0] == 'cast':
-                t = strip(t[1])
+            while isinstance(t, tuple) and (t[0] == 'cast' or (t[0] == 'call' and len(t) == 3 and mir.cname(t[1]) in _SLICE_VIEWS)):
+                if t[0] == 'cast':
+                    t = strip(t[1])
+                    continue
+                inner = strip(t[2])
+                if isinstance(inner, tuple) and (inner[0] == 'cast' or (inner[0] == 'call' and (
+                        mir.cname(inner[1]) in _SLICE_VIEWS or mir.cname(inner[1]).split('::')[-1] in ('into_iter', 'iter', 'iter_mut', 'enumerate', 'rev', 'filter', 'map', 'cloned', 'copied')))):
+                    t = inner
+                else:
+                    t = t[2]
+                    break
         else:
             break
     ad.reverse()
     return t, ad
+
+
+_SLICE_VIEWS = ('Deref::deref', 'DerefMut::deref_mut', 'Vec::as_slice', 'Vec::as_mut_slice', 'AsRef::as_ref', 'Borrow::borrow')
 
 
 def range_of(src):
@@ -278,11 +291,10 @@ def subsequence_filter(prog, b, source_param, pred_ok):
         okr = len(rvs) == 1
         if okr:
             x = rvs[0]
-            names = []
-            while isinstance(x, tuple) and x[0] == 'call':
-                names.append(mir.cname(x[1]).split('::')[-1])
-                x = strip(x[2])
-            okr = names and names[0] == 'collect' and all(n in ('collect', 'cloned', 'copied', 'filter', 'into_iter', 'iter') for n in names) and 'filter' in names
+            okr = isinstance(x, tuple) and x[0] == 'call' and mir.cname(x[1]).split('::')[-1] == 'collect'
+            if okr:
+                rbase, rad = iter_chain(x[2])
+                okr = is_param(rbase, source_param) and rad.count('filter') == 1 and all(n in ('cloned', 'copied', 'filter', 'into_iter', 'iter') for n in rad)
         if not okr:
             return False, 'result is not collect() of the filtered sequence'
         return True, 'iterator filter + collect'
